@@ -175,7 +175,7 @@ def _job(which: str) -> Callable[[], Record]:
 
 
 for _w in ("Parameter", "_parameter_deepcopy", "_parameter_reduce_ex"):
-    register(Job(f"c09:{_w}", ["C09", "C08"] if _w == "Parameter" else ["C09"], P + _w, {}, _job(_w)))
+    register(Job(f"c09:{_w}", ["C09", "C08"] if _w == "Parameter" else ["C09", "C17"], P + _w, {}, _job(_w), shared=True))
 
 
 def _parameter_contract_job() -> Record:
